@@ -1,12 +1,13 @@
 #!/bin/bash
-# tools/seed_eval.sh <seed-id> <property> "<checks to run, e.g. C11 C01>" : confirm a seeded change and run the checks on it.
+# tools/seed_eval.sh <seed-id> <property> "<checks to run, e.g. C11 C01>" [dir with patch.diff demo.py notes.md] : confirm a seeded change and run the checks on it.
 set -u
 ID=$1; PROP=$2; CHECKS=$3
-SRC=/tmp/seed/$ID/OUT
+SRC=${4:-/tmp/seed/$ID/OUT}
+SRCWT=$(dirname $SRC)/wt
 DST=/verif/seeded/$ID
 mkdir -p $DST
 cp $SRC/patch.diff $DST/patch.diff; cp $SRC/demo.py $DST/demo.py; cp $SRC/notes.md $DST/notes.md 2>/dev/null
-sed -i "s#/tmp/seed/$ID/OUT#/verif/seeded/$ID#g; s#/tmp/seed/$ID/wt#<tree>#g" $DST/notes.md 2>/dev/null
+sed -i "s#$SRC#/verif/seeded/$ID#g; s#$SRCWT#<tree>#g" $DST/notes.md $DST/demo.py 2>/dev/null
 WT=/tmp/seedcheck/$ID
 rm -rf $WT; git -C /repo worktree prune; git -C /repo worktree add -q $WT HEAD
 cd $WT
